@@ -9,12 +9,16 @@ CORR_MODULES = ["KeyHash.KeyCorr"]
 PREFIX = "C11"
 CASE_TYPE = "KH_case"
 HARNESS = "c11"
-KNOWN = {1: "C11-key-id-collision", 2: "C11-reader-derivation-codec"}
+KNOWN = {2: "C11-reader-derivation-codec"}
 RULE = ("a case is one keyed DynamicType built at run time (nested keys, several keys, string / sequence / "
         "array / struct keys, explicit or per-struct member ids) with two DynamicData samples (op h: both "
         "writer-side handles) or one sample (op r: writer handle + six reader-side derivations, through a "
         "serialized RTPS DATA submessage with and without PID_KEY_HASH, XCDR1 and XCDR2, sample and "
-        "serialized key); distinct = distinct input line; non-trivial = at least one key member and every "
+        "serialized key; op s: whole stack - two simulated participants, dynamic topic, real DataWriter and "
+        "DataReader, the samples reach the reader without key hash (DATA_FRAG through a small fragment size, or "
+        "PID_KEY_HASH renamed in flight), compared: DataWriter::lookup_instance and SampleInfo::instance_handle of "
+        "write / dispose / unregister, on types whose key members are not the leading members); "
+        "distinct = distinct input line; non-trivial = at least one key member and every "
         "output is a 16-byte handle")
 TRUSTED = ["theories/KeyHash/KeyModel.v is a hand transcription of xtypes_glue/key_and_instance_handle.rs and of "
            "the big-endian EncodingVersion1 path of xtypes/serializer.rs (serialize_final_without_header)",
@@ -25,10 +29,11 @@ TRUSTED = ["theories/KeyHash/KeyModel.v is a hand transcription of xtypes_glue/k
 ASSUMPTIONS = ["a nested DynamicData carries the type its member descriptor declares",
                "key members are not optional, nested key structures are FINAL or APPENDABLE, no sequence/array of "
                "sequence/array, no enum/union/bitmask/wstring/map key members, char8 values fit one octet",
-               "=> direction: outside the recorded class C11-key-id-collision and modulo an explicit MD5 coincidence",
-               "reader derivation without key hash for sample types with MUTABLE structures, multi-dimensional arrays or optional members: recorded class C11-reader-derivation-codec (root cause in the XCDR codec, C09)",
-               "the NotAlive* derivation is exercised through deserialize_topic_type (deserialize_top_level_type "
-               "followed by validation) because xtypes::deserializer is pub(crate)"]
+               "=> direction: modulo an explicit MD5 coincidence (the former class C11-key-id-collision is fixed: c1628d5, the model follows the fixed code)",
+               "reader derivation without key hash for sample types with MUTABLE structures or multi-dimensional arrays: recorded class C11-reader-derivation-codec (root cause in the XCDR codec, C09)",
+               "op r re-implements the reader-side branch of communication_methods.rs in the harness (the NotAlive* "
+               "derivation through deserialize_topic_type because xtypes::deserializer is pub(crate)); op s runs the "
+               "real DcpsDomainParticipant code for the same situations"]
 
 PRIMS = ["b", "y", "u8", "i8", "u16", "i16", "u32", "i32", "u64", "i64", "f32", "f64", "f128", "c8"]
 TAG = {"b": "b", "y": "u8", "u8": "u8", "i8": "i8", "u16": "u16", "i16": "i16", "u32": "u32", "i32": "i32",
@@ -223,7 +228,7 @@ def codec_safe(t):
         return codec_safe(t[1])
     if k == "a":
         return len(t[2]) == 1 and codec_safe(t[1])
-    return t[1] != "m" and all((not m[2]) and codec_safe(m[3]) for m in t[2])
+    return t[1] != "m" and all(codec_safe(m[3]) for m in t[2])
 
 
 def gen_r_fields(r, t):
@@ -465,6 +470,57 @@ FIXED_TYPES = [
 MD5_TYPE = ("S", "f", [(0, True, False, ("q", ("p", "y"), 0))])
 
 
+SIM_TYPES = [
+    # key members that are NOT the leading members (what a key-holder decode of the full sample gets wrong)
+    ("S", "f", [(0, False, False, ("q", ("p", "y"), 0)), (1, True, False, ("p", "u32"))]),
+    ("S", "a", [(0, False, False, ("p", "u32")), (1, True, False, ("p", "u32"))]),
+    ("S", "f", [(0, False, False, ("s", 0)), (1, True, False, ("s", 0)), (2, False, False, ("p", "u8"))]),
+    ("S", "a", [(0, False, False, ("s", 0)), (1, False, False, ("S", "f", [(2, False, False, ("p", "u8")),
+                                                                          (3, True, False, ("p", "u8"))])),
+                (4, True, False, ("s", 0))]),
+    ("S", "f", [(0, True, False, ("p", "u8")), (1, False, False, ("p", "u64")), (2, True, False, ("p", "u16"))]),
+    ("S", "f", [(0, False, False, ("a", ("p", "u16"), [3])), (1, True, False, ("q", ("p", "u8"), 0)),
+                (2, True, False, ("p", "i64"))]),
+    ("S", "f", [(0, False, False, ("p", "f64")), (1, True, False, ("S", "f", [(2, False, False, ("p", "u8")),
+                                                                           (3, False, False, ("p", "u32"))]))]),
+    # key first (control)
+    ("S", "f", [(0, True, False, ("p", "u32")), (1, False, False, ("q", ("p", "y"), 0))]),
+    # MUTABLE with small members: decoded by member id, position does not matter
+    ("S", "m", [(0, False, False, ("p", "u32")), (1, True, False, ("p", "u32"))]),
+]
+
+
+def has_nonprefix_key(t):
+    seen_nonkey = False
+    for (i, key, opt, mt) in t[2]:
+        if key:
+            if seen_nonkey:
+                return True
+        elif mt[0] == "S" and not opt and key_member_count(mt) > 0:
+            if seen_nonkey or has_nonprefix_key(mt) or not mt[2][0][1]:
+                return True
+            seen_nonkey = True
+        else:
+            seen_nonkey = True
+    return False
+
+
+def sim_case(r, t):
+    """writes of a sample, of one with the same key and other non-key members, of one with a slightly
+    different key; then a dispose and an unregister"""
+    a = gen_fields(r, t)
+    vals = [a, change_nonkey(r, t, a), change_one_key(r, t, a)]
+    if r.random() < 0.3:
+        vals.append(gen_fields(r, t))
+    ops = [("w", v) for v in vals]
+    if r.random() < 0.7:
+        ops.append(("d", r.choice(vals)))
+    if r.random() < 0.5:
+        ops.append(("u", r.choice(vals)))
+    mode = r.choice(["k", "k", "f4", "f8", "f16", "f64"])
+    return ("s", t, mode, r.choice([1, 2]), ops)
+
+
 def pair_cases(r, t, nvals, npairs):
     vals = [gen_fields(r, t) for _ in range(nvals)]
     out = []
@@ -500,6 +556,17 @@ def gen(r, tier):
         a = [(0, ("Q", "u8", [r.randint(0, 255) for _ in range(ln - 4)]))]
         b = [(0, ("Q", "u8", [r.randint(0, 255) for _ in range(ln - 4)]))]
         cases.append(("h", MD5_TYPE, a, b))
+    nsim = {"quick": 260, "search": 600, "thorough": 2500}[tier]
+    sims = []
+    for t in SIM_TYPES:
+        for _ in range(6 if tier == "quick" else 20):
+            sims.append(sim_case(r, t))
+    while len(sims) < nsim:
+        t = gen_safe_topic_type(r)
+        if r.random() < 0.8 and not has_nonprefix_key(t):
+            continue
+        sims.append(sim_case(r, t))
+    cases += sims
     while len(cases) < n:
         k = r.random()
         if k < 0.7:
@@ -524,12 +591,13 @@ def corpus():
     return [
         # C12-actual-length: unbounded string key "ab" is zero-padded, not hashed
         ("h", t_str, [(0, ("x", [0x61, 0x62]))], [(0, ("x", [0x61] * 12))]),
-        # C11-key-id-collision: outer key 1 / 2 ignored, nested key 7 written twice
+        # regression of C11-key-id-collision (fixed c1628d5): outer key 1 / 2 used to be ignored, nested key 7 written twice
         ("h", t_col, [(0, ("P", "u8", 1)), (1, ("{", [(0, ("P", "u8", 7))]))],
          [(0, ("P", "u8", 2)), (1, ("{", [(0, ("P", "u8", 7))]))]),
         ("h", t_col2, [(0, ("P", "u16", 1)), (1, ("{", [(0, ("P", "u8", 7))]))],
          [(0, ("P", "u16", 2)), (1, ("{", [(0, ("P", "u8", 7))]))]),
-        # C11-reader-derivation-codec: MUTABLE + 8-byte member, two-dimensional array, optional member, nested MUTABLE
+        # C11-reader-derivation-codec: MUTABLE + 8-byte member, two-dimensional array, nested MUTABLE; the optional-member
+        # sample derives the right handle since addc370 (regression case)
         # (FLOAT128 in XCDR1 derives the right handle since 0b5427b: regression case)
         ("r", ("S", "m", [(5, True, False, ("p", "i64")), (7, True, False, ("a", ("p", "u8"), [3])),
                           (9, False, False, ("p", "u8"))]),
@@ -551,6 +619,16 @@ def corpus():
           (2, ("R", [[(7, ("Q", "i16", [-15694, 136, 6986, 157, -1468, -15181])), (8, ("x", [0x44])), (9, ("P", "i8", -13))],
                      [(7, ("Q", "i16", [27206, -28524, -32768, -13116, 32767, -24202])), (8, ("x", [0x7e, 0x79, 0x20])),
                       (9, ("P", "i8", 35))]]))]),
+        # whole stack, Alive sample without key hash, key after a non-key member (seeded change C11: the full
+        # sample decoded with the key-holder type): fragmented, and with the key hash renamed in flight
+        ("s", SIM_TYPES[0], "f64", 1,
+         [("w", [(0, ("Q", "u8", list(range(70)))), (1, ("P", "u32", 7))]),
+          ("w", [(0, ("Q", "u8", list(range(90)))), (1, ("P", "u32", 7))]),
+          ("w", [(0, ("Q", "u8", list(range(70)))), (1, ("P", "u32", 9))])]),
+        ("s", SIM_TYPES[1], "k", 2,
+         [("w", [(0, ("P", "u32", 5)), (1, ("P", "u32", 7))]), ("w", [(0, ("P", "u32", 6)), (1, ("P", "u32", 7))]),
+          ("w", [(0, ("P", "u32", 6)), (1, ("P", "u32", 8))]), ("d", [(0, ("P", "u32", 6)), (1, ("P", "u32", 7))]),
+          ("u", [(0, ("P", "u32", 0)), (1, ("P", "u32", 8))])]),
         # a char8 that does not fit one octet, in a key and beside a key
         ("r", ("S", "f", [(0, True, False, ("q", ("p", "c8"), 0)), (1, False, False, ("p", "c8")), (2, True, False, ("p", "i64"))]),
          [(0, ("Q", "c8", [233, 8364, 65])), (1, ("P", "c8", 2048)), (2, ("P", "i64", 2))]),
@@ -558,6 +636,8 @@ def corpus():
 
 
 def case_line(c):
+    if c[0] == "s":
+        return "s %s %d %s %s" % (c[2], c[3], type_text(c[1]), " ".join(o + fields_text(d) for o, d in c[4]))
     if c[0] == "h":
         return "h %s %s %s" % (type_text(c[1]), fields_text(c[2]), fields_text(c[3]))
     return "r %s %s" % (type_text(c[1]), fields_text(c[2]))
@@ -699,6 +779,9 @@ def parse_value(p):
 
 def parse_line(line):
     parts = line.split()
+    if parts[0] == "s":
+        return ("s", parse_type(_P(parts[3])), parts[1], int(parts[2]),
+                [(x[0], parse_fields(_P(x[1:]))) for x in parts[4:]])
     t = parse_type(_P(parts[1]))
     if parts[0] == "h":
         return ("h", t, parse_fields(_P(parts[2])), parse_fields(_P(parts[3])))
@@ -724,7 +807,12 @@ def case_term(c, out):
     hs = [hres_term(x) for x in p[1:]]
     if any(h is None for h in hs):
         return None
-    if c[0] == "h":
+    if c[0] == "s":
+        if len(hs) != 2 * len(c[4]):
+            return None
+        op = "OpS %s [%s]" % (type_term(c[1]), "; ".join(
+            "(%s, %s)" % ({"w": "SW", "d": "SD", "u": "SU"}[o], fields_term(d)) for o, d in c[4]))
+    elif c[0] == "h":
         if len(hs) != 2:
             return None
         op = "OpH %s %s %s" % (type_term(c[1]), fields_term(c[2]), fields_term(c[3]))
@@ -747,6 +835,8 @@ def distribution(cases, outs):
     for c, o in zip(cases, outs):
         p = o.split()
         k = c[0]
+        if c[0] == "s":
+            k += "/" + ("keyhash-renamed" if c[2] == "k" else "data-frag") + "/xcdr%d" % c[3]
         if c[0] == "h" and len(p) == 3:
             k += "/same" if p[1] == p[2] else "/diff"
         if any(x.startswith("E") for x in p[1:]):
@@ -763,10 +853,9 @@ MANIFEST = {
     "text": ("Machine-checked proof (Coq) over a model of key_and_instance_handle.rs and the big-endian XCDR1 key "
              "serializer: equal key members give equal instance handles whatever the other members hold "
              "(unconditional); equal handles force equal key members or exhibit an explicit MD5 coincidence "
-             "(injectivity and prefix-freeness of the key encoding, zero-padding lemma) for every keyed type whose "
-             "flattened key holder has pairwise distinct member ids; for types where a nested key member's id "
-             "equals an outer key member's id the statement is false on the model and on the real code (recorded "
-             "finding). The reader-side derivation from the serialized key equals the writer-side handle. The model "
+             "(injectivity and prefix-freeness of the key encoding, zero-padding lemma) for every keyed type in the "
+             "supported fragment (the flattened key holder numbers its members afresh, so member ids of different "
+             "structures cannot collide: former finding C11-key-id-collision, fixed). The reader-side derivation from the serialized key equals the writer-side handle. The model "
              "is tied to the code by building thousands of keyed DynamicTypes/DynamicData at run time, running the "
              "real writer-side and reader-side derivations (through a serialized RTPS DATA submessage with and "
              "without PID_KEY_HASH) and comparing every handle with the model inside Coq; the property oracle is "
@@ -774,6 +863,6 @@ MANIFEST = {
     "note": ("Trusted: Coq kernel + vm_compute; hand model KeyModel.v/Md5Model.v (checked against the code and the md5 "
              "crate by the correspondence run on every check); harness and comparator. Axioms: none. The reader-side "
              "derivations without key hash depend on the XCDR codec round trip (C09), assumed in the theorem and "
-             "exercised on the real code. Known findings: C11-key-id-collision, C11-reader-derivation-codec."),
+             "exercised on the real code. Known finding: C11-reader-derivation-codec (C11-key-id-collision is fixed)."),
     "technique": "Coq proof (structural induction, prefix-free encoding) + differential correspondence with oracle evaluated in Coq",
 }
